@@ -37,5 +37,9 @@ def run_case(desc, op, fault_at=None, pre_ops=()):
             solverrec.OPS[pre](p)
         except Exception as e:
             return dict(skip="pre-op %s: %s" % (pre, type(e).__name__))
-    line, answer, info = solverrec.run_recorded(p, op, seq0, rt, fault_at=fault_at)
+    # constraints carrying a (possibly stale) `is_focus` flag, as left behind by an earlier resolve_constraint
+    focus = [i for i in desc.get("focus", []) if i < len(p.constraints)]
+    for i in focus:
+        p.constraints[i].is_focus = True
+    line, answer, info = solverrec.run_recorded(p, op, seq0, rt, fault_at=fault_at, focus_handles=focus)
     return dict(line=line, answer=answer, info=info, problem=p)
